@@ -41,15 +41,19 @@ def _passes(ctx, rule, fk, callee, pairs):
     for (b, t) in cs:
         body = prog.fns[b[1]].body if isinstance(b, tuple) else fn.body
         for (ai, pname) in pairs:
-            got = ordering_arg(body, t, ai)
-            if got != ("param", pname):
+            got = ordering_ordinal(prog, b[1] if isinstance(b, tuple) else fk, body.expr_of_operand(t["args"][ai]))
+            want = ("ord", ORD_POS[pname])
+            if got != want:
                 ok = False
-                ctx.bad(rule, fk, "the Ordering handed to %s (argument %d) is %s, not the caller's `%s`: the user's ordering is changed on the "
-                        "way to the runtime" % (callee.split("::")[-1], ai, got[1], pname),
+                ctx.bad(rule, fk, "the Ordering handed to %s (argument %d) is %s, not the caller's %s ordering parameter: the user's ordering "
+                        "is changed on the way to the runtime" % (callee.split("::")[-1], ai, got, pname),
                         site_str(prog, b[1] if isinstance(b, tuple) else fk, b[2] if isinstance(b, tuple) else b), detail=pname)
     ctx.touch(fk, len(cs))
     return ok
 
+
+# which Ordering-typed parameter (in declaration order) each role name denotes
+ORD_POS = {"order": 0, "ordering": 0, "success": 0, "failure": 1, "set_order": 0, "fetch_order": 1}
 
 LAYER1 = [
     # (method, callee, [(arg, param)])
@@ -157,7 +161,7 @@ def O2(ctx):
         return
     l = e[1]
     for (val, name) in ORDERINGS:
-        reached, _ = PEval(body, assume_discr("order", val)).run()
+        reached, _ = PEval(body, assume_discr(param_name(fn, ORD_TY), val)).run()
         got = set()
         for d in body.defs().get(l, []):
             if d[0] == "stmt" and d[1] in reached:
@@ -240,7 +244,7 @@ def M1(ctx):
         for (b, t, c) in prog.sites(root):
             if prog.callee_key(c) == ST + "apply_load_coherence":
                 a = strip(arg_expr(fn.body, t, 2))
-                if a == ("param", 3, "index") or (a[0] == "param" and a[2] == "index"):
+                if a[0] == "param" and a[1] == 3:
                     ctx.ok("M1", fk + ":coherence-index", "coherence applied to the store being read", [site_str(prog, fk, b)])
                 else:
                     ctx.bad("M1", fk, "apply_load_coherence is not applied to the store being read (%s)" % canon(a), site_str(prog, fk, b), detail="index")
@@ -327,7 +331,7 @@ def M2(ctx):
         b, t = st[0]
         a = arg_expr(fn.body, t, 2)
         f = mentions_field(a, "rt::atomic::Store", "sync")
-        idx_ok = f is not None and "index" in canon(f)
+        idx_ok = f is not None and (fn.body.local_name(3) or "index") in canon(f)
         val = strip(arg_expr(fn.body, t, 3))
         val_ok = "Ok" in canon(val)
         if idx_ok and val_ok:
@@ -343,7 +347,7 @@ def M2(ctx):
         for s in blk["stmts"]:
             if s["k"] == "=" and s["lhs"]["l"] == 0 and s["rv"]["k"] == "agg" and s["rv"].get("variant") == "Ok":
                 e = fn.body.expr_of_rvalue(s["rv"])
-                if mentions_field(e, "rt::atomic::Store", "value") and "index" in canon(e):
+                if mentions_field(e, "rt::atomic::Store", "value") and (fn.body.local_name(3) or "index") in canon(e):
                     okret = True
     if okret:
         ctx.ok("M2", fk + ":returns-prev", "Ok(previous value of the store read)", [fn.loc()])
@@ -479,7 +483,7 @@ def N1(ctx):
         ctx.touch(frm)
         if ty == "bool":
             # into: phi of consts 1/0 selected by self; from: src != 0
-            ok_from = ef[0] == "binop" and ef[1] == "Ne" and canon(ef[3]) == "0" and canon(ef[2]) == "src"
+            ok_from = ef[0] == "binop" and ef[1] == "Ne" and canon(ef[3]) == "0" and strip(ef[2])[0] == "param" and strip(ef[2])[1] == 1
             consts = {}
             for d in fi.body.defs().get(0, []):
                 if d[0] == "stmt":
@@ -487,7 +491,8 @@ def N1(ctx):
                     g = [(canon(ge), pol) for (ge, pol, v, sb) in guard_atoms(fi.body, d[1])]
                     if de[0] == "const":
                         consts[de[1].get("int")] = g
-            ok_into = consts.get(1) == [("self", True)] and consts.get(0) == [("self", False)]
+            sn = fi.body.local_name(1) or "_1"
+            ok_into = consts.get(1) == [(sn, True)] and consts.get(0) == [(sn, False)]
             if ok_from and ok_into:
                 ctx.ok("N1", "Numeric for bool", "false<->0, true<->1, decode by != 0", [fi.loc(), ff.loc()])
             else:
@@ -496,13 +501,13 @@ def N1(ctx):
             continue
         if ty == "u64":
             # `self as u64` on u64 is the identity: no cast appears in MIR
-            if ei == ("param", 1, "self") and ef == ("param", 1, "src"):
+            if ei[0] == "param" and ei[1] == 1 and ef[0] == "param" and ef[1] == 1:
                 ctx.ok("N1", "Numeric for u64", "identity", [fi.loc(), ff.loc()])
             else:
                 ctx.bad("N1", "Numeric for u64", "u64 must be carried unchanged (into=%s, from=%s)" % (canon(ei), canon(ef)), fi.loc(), detail="cast")
             continue
-        single_i = ei[0] == "cast" and strip(ei[2]) == ("param", 1, "self") and ei[4] == "u64"
-        single_f = ef[0] == "cast" and strip(ef[2]) == ("param", 1, "src") and ef[3] == "u64"
+        single_i = ei[0] == "cast" and strip(ei[2])[0] == "param" and strip(ei[2])[1] == 1 and ei[4] == "u64"
+        single_f = ef[0] == "cast" and strip(ef[2])[0] == "param" and strip(ef[2])[1] == 1 and ef[3] == "u64"
         kinds_ok = (ei[1] in ("IntToInt", "PointerExposeProvenance")) and (ef[1] in ("IntToInt", "PointerWithExposedProvenance"))
         if single_i and single_f and kinds_ok:
             ctx.ok("N1", "Numeric for " + ty, "size %d <= 8, `self as u64` / `src as T`" % size, [fi.loc(), ff.loc()])
@@ -552,6 +557,7 @@ def N2(ctx):
             ctx.touch(ck)
             # the closure's parameter has the primitive type itself (signed compare for max/min)
             pty = fn.body.locals[2]["ty"] if len(fn.body.locals) > 2 else "?"
+            VV_ = [fn.body.local_name(2) or "_2", (fn.j.get("upvars") or ["?"])[0]]      # [stored value, operand] by position
             ok = pty == prim
             args = None
             if kind == "call" and e[0] == "call" and e[1] == what:
@@ -565,8 +571,8 @@ def N2(ctx):
                 args = [canon(e[2]), canon(e[3])]
             elif kind == "nand" and e[0] == "unop" and e[1] == "Not" and e[2][0] == "binop" and e[2][1] == "BitAnd":
                 args = [canon(e[2][2]), canon(e[2][3])]
-            good = ok and args is not None and (args == ["v", "val"] or (op in ("fetch_and", "fetch_or", "fetch_xor", "fetch_nand", "fetch_add",
-                                                                                "fetch_max", "fetch_min") and sorted(args) == ["v", "val"]))
+            good = ok and args is not None and (args == VV_ or (op in ("fetch_and", "fetch_or", "fetch_xor", "fetch_nand", "fetch_add",
+                                                                      "fetch_max", "fetch_min") and sorted(args) == sorted(VV_)))
             if good:
                 ctx.ok("N2", base + op, "%s on %s" % (canon(e), prim), [fn.loc()])
             else:
@@ -586,7 +592,7 @@ def N2(ctx):
             args = sorted([canon(e[2]), canon(e[3])])
         if what is None and e[0] == "unop" and e[1] == "Not" and e[2][0] == "binop" and e[2][1] == "BitAnd":
             args = sorted([canon(e[2][2]), canon(e[2][3])])
-        if args == ["v", "val"]:
+        if args == sorted([fn.body.local_name(2) or "_2", (fn.j.get("upvars") or ["?"])[0]]):
             ctx.ok("N2", base + op, canon(e), [fn.loc()])
         else:
             ctx.bad("N2", base + op, "%s of AtomicBool computes `%s`" % (op, canon(e)), fn.loc())
@@ -595,7 +601,8 @@ def N2(ctx):
     fn, e = _closure_ret(prog, ck)
     if fn is not None:
         n += 1
-        if canon(e) == "val":
+        pf = prog.fns.get(L1 + "swap")
+        if pf is not None and e[0] == "upvar" and e[2] == pf.body.local_name(2):
             ctx.ok("N2", L1 + "swap", "|_| val", [fn.loc()])
         else:
             ctx.bad("N2", L1 + "swap", "swap must store `val` (computes %s)" % canon(e), fn.loc())
@@ -616,9 +623,11 @@ def N3(ctx):
             for s in blk["stmts"]:
                 if s["k"] == "=" and s["lhs"]["l"] == 0 and s["rv"]["k"] == "agg":
                     e = body.expr_of_rvalue(s["rv"])
-                    if e[2] == "Ok" and canon(e[3][0]) == "new":
+                    pf = prog.fns[L1 + "compare_exchange"]
+                    cur_n, new_n, act_n = pf.body.local_name(2), pf.body.local_name(3), body.local_name(2)
+                    if e[2] == "Ok" and canon(e[3][0]) == new_n:
                         okb = b
-                    if e[2] == "Err" and canon(e[3][0]) == "actual":
+                    if e[2] == "Err" and canon(e[3][0]) == act_n:
                         errb = b
         eq = {"std::cmp::PartialEq::eq": False}
         good = okb is not None and errb is not None and unreachable_if(body, okb, assume_calls({"std::cmp::PartialEq::eq": False})) and \
@@ -628,7 +637,8 @@ def N3(ctx):
         for (b, t, c) in prog.sites(inst):
             if callee_path(t).endswith("PartialEq::eq"):
                 cmpargs = sorted([canon(arg_expr(body, t, 0)), canon(arg_expr(body, t, 1))])
-        if good and cmpargs == ["actual", "current"]:
+        pf = prog.fns[L1 + "compare_exchange"]
+        if good and cmpargs == sorted([body.local_name(2) or "", pf.body.local_name(2) or ""]):
             ctx.ok("N3", L1 + "compare_exchange", "Ok(new) iff actual == current, else Err(actual)", [fn.loc()])
         else:
             ctx.bad("N3", L1 + "compare_exchange", "compare_exchange closure must be `if actual == current { Ok(new) } else { Err(actual) }`", fn.loc())
@@ -655,7 +665,7 @@ def N3(ctx):
                 continue
             cs = _calls(prog, fk, callee)
             n += 1
-            if cs and [canon(strip(fn.body.expr_of_operand(a))) for a in cs[0][1]["args"][1:3]] == ["current", "new"]:
+            if cs and [canon(strip(fn.body.expr_of_operand(a))) for a in cs[0][1]["args"][1:3]] == [fn.body.local_name(2), fn.body.local_name(3)]:
                 ctx.ok("N3", fk, "forwards (current, new) in order", [fn.loc()])
             else:
                 ctx.bad("N3", fk, "%s must forward (current, new) unchanged to %s" % (fk, callee), fn.loc())
@@ -760,7 +770,7 @@ def N4(ctx):
         for (b, t, c) in prog.sites(inst):
             if prog.callee_key(c) == ST + "new":
                 a = strip(arg_expr(fn.body, t, 1))
-                ok = a[0] == "call" and a[1].endswith("Numeric::into_u64") and canon(a[2][0]) == "value"
+                ok = a[0] == "call" and a[1].endswith("Numeric::into_u64") and canon(a[2][0]) == prog.fns[RT + "new"].body.local_name(1)
         if ok:
             ctx.ok("N4", RT + "new", "State::new(value.into_u64())", [fn.loc()])
         else:
@@ -774,7 +784,7 @@ def N4(ctx):
         for (b, t, c) in prog.sites(inst):
             if prog.callee_key(c) == ST + "store":
                 a = strip(arg_expr(fn.body, t, 3))
-                ok = a[0] == "call" and a[1].endswith("Numeric::into_u64") and canon(a[2][0]) == "val"
+                ok = a[0] == "call" and a[1].endswith("Numeric::into_u64") and canon(a[2][0]) == prog.fns[RT + "store"].body.local_name(3)
         if ok:
             ctx.ok("N4", RT + "store", "state.store(.., val.into_u64(), ..)", [fn.loc()])
         else:
